@@ -71,6 +71,7 @@ struct Ctx {
     std::set<const Decl *> doneFns;
     std::set<const Decl *> doneDecls;
     std::set<const Decl *> doneTmpl;
+    std::set<const Decl *> donePat;
     std::set<const Decl *> doneClasses;
     PrintingPolicy PP{LangOptions()};
 
@@ -855,7 +856,17 @@ public:
     void handle(const FunctionDecl *FD) {
         if (!FD) return;
         if (!FD->doesThisDeclarationHaveABody()) return;
-        if (FD->isDependentContext()) return;
+        if (FD->isDependentContext()) {
+            // a definition inside a template (pattern): recorded by position only, so that a coverage report can tell which
+            // header functions have no analysed instantiation in any unit
+            if (!FD->isInvalidDecl() && C.inRoots(FD->getLocation()) && C.donePat.insert(FD->getCanonicalDecl()).second) {
+                const Stmt *B = FD->getBody();
+                unsigned l1 = B ? C.lineOf(B->getEndLoc()) : 0;
+                *C.OS << "{\"t\":\"pat\",\"p\":" + jstr(C.pname(FD)) + ",\"file\":" + jstr(C.fileOf(FD->getLocation())) +
+                             ",\"ln\":" + std::to_string(C.lineOf(FD->getLocation())) + ",\"l1\":" + std::to_string(l1) + "}\n";
+            }
+            return;
+        }
         if (FD->isInvalidDecl()) return;
         if (!C.inRoots(FD->getLocation())) return;
         if (!C.doneFns.insert(FD).second) return;
